@@ -152,7 +152,7 @@ Init == /\ \E n \in Ns, x0 \in X0s, y0 \in Y0s, dx \in DXs, dyv \in DYs, cv \in 
 
 \* ------------------------------------------------------------------ crop(): one action per call made by crop()
 CanRaise == Degenerate \/ (Legacy /\ (LegacyMust \/ LegacyMay))
-CanSucceed == ~(Legacy /\ LegacyMust)
+CanSucceed == Degenerate \/ ~(Legacy /\ LegacyMust)      \* (on degenerate lines the rotated abscissae need not be monotone)
 
 \* get_crop_inputs returned a coordinate grid of width w
 InputsOkW(w) == /\ pc = "start" /\ CanSucceed
